@@ -1343,1162 +1343,4 @@ theorem kdiff_congr (b a a' : List Key) (h : ∀ k, k ∈ a ↔ k ∈ a') : kdif
     simp [hk, hk']
 
 
-/-! ## sparse refinement -/
-
-def optRes (o : Option Val) : Res Val :=
-  match o with
-  | some v => .ok v
-  | none => .error .keyError
-
-/-- well-formed eager sparse row: a dict (distinct keys); the label entry exists -/
-structure WFS (e : EagerS) : Prop where
-  nodup : (e.d.map (·.1)).Nodup
-  lab : ∀ k t, e.lab = some (k, t) → (dget e.d k).isSome
-
-/-- the lazy sparse row `r` is indistinguishable from the eager dict `e.d` (label part apart) -/
-structure RefS (r : SRow) (e : EagerS) : Prop where
-  get : ∀ k, r.get k = optRes (dget e.d k)
-  items : ∃ its, r.items = .ok its ∧ (its.map (·.1)).Nodup ∧ ∀ k, dget its k = dget e.d k
-  keys : ∃ ks, r.keys = .ok ks ∧ ks.Nodup ∧ ∀ k, k ∈ ks ↔ (dget e.d k).isSome
-  len : r.len = .ok e.d.length
-  miss : r.missing.toOption = e.miss
-  inv : r.invOf = e.inv
-
-theorem mem_keys_of_equiv {a b : Dict} (h : ∀ k, dget a k = dget b k) (k : Key) : k ∈ a.map (·.1) ↔ k ∈ b.map (·.1) := by
-  rw [← dget_isSome_iff_mem, ← dget_isSome_iff_mem, h k]
-
-theorem contains_iff_mem (l : List Key) (k : Key) : l.contains k = true ↔ k ∈ l := by
-  simp
-
-theorem length_of_keys {ks : List Key} {d : Dict} (hk : ks.Nodup) (hd : (d.map (·.1)).Nodup)
-    (h : ∀ k, k ∈ ks ↔ (dget d k).isSome) : ks.length = d.length := by
-  have := length_eq_of_same_members ks (d.map (·.1)) hk hd (fun k => by rw [h k, dget_isSome_iff_mem])
-  simpa using this
-
-theorem refS_plain (d : Dict) (hn : (d.map (·.1)).Nodup) (lab) : RefS (.plain d) ⟨d, lab, none, []⟩ where
-  get := by intro k; simp only [SRow.get, optRes]; cases dget d k <;> rfl
-  items := ⟨d, rfl, hn, fun _ => rfl⟩
-  keys := ⟨d.map (·.1), rfl, hn, fun k => (dget_isSome_iff_mem d k).symm⟩
-  len := rfl
-  miss := rfl
-  inv := rfl
-
-theorem nodup_filter_keys {d : Dict} (q : Key → Bool) (hn : (d.map (·.1)).Nodup) :
-    ((d.filter (fun p => q p.1)).map (·.1)).Nodup := by
-  have : ((d.filter (fun p => q p.1)).map (·.1)).Sublist (d.map (·.1)) := (List.filter_sublist).map _
-  exact this.nodup hn
-
-theorem refS_drop {r : SRow} {e : EagerS} (h : RefS r e) (hw : WFS e) (ds : List Key) (lab) :
-    RefS (.drop r ds) ⟨e.d.filter (fun p => !ds.contains p.1), lab, e.miss, e.inv⟩ := by
-  obtain ⟨its, hits, hnd, heq⟩ := h.items
-  obtain ⟨ks, hks, hknd, hkm⟩ := h.keys
-  have hkeys : ∀ k, k ∈ ks.filter (fun k => !ds.contains k) ↔ (dget (e.d.filter (fun p => !ds.contains p.1)) k).isSome := by
-    intro k
-    rw [List.mem_filter, hkm k, dget_filter_key e.d (fun k => !ds.contains k) k]
-    by_cases hc : k ∈ ds <;> simp [hc]
-  have hknd' : (ks.filter (fun k => !ds.contains k)).Nodup := (List.filter_sublist).nodup hknd
-  refine ⟨?_, ⟨its.filter (fun p => !ds.contains p.1), by simp [SRow.items, hits], nodup_filter_keys (fun k => !ds.contains k) hnd, ?_⟩,
-    ⟨ks.filter (fun k => !ds.contains k), by simp [SRow.keys, hks], hknd', hkeys⟩, ?_, h.miss, h.inv⟩
-  · intro k
-    simp only [SRow.get, dget_filter_key e.d (fun k => !ds.contains k) k]
-    by_cases hc : k ∈ ds
-    · simp [hc, optRes]
-    · simp [hc, h.get k]
-  · intro k
-    rw [dget_filter_key its (fun k => !ds.contains k) k, dget_filter_key e.d (fun k => !ds.contains k) k, heq k]
-  · simp only [SRow.len, SRow.keys, hks]
-    exact congrArg Except.ok (length_of_keys hknd' (nodup_filter_keys (fun k => !ds.contains k) hw.nodup) hkeys)
-
-/-- the eager dict after LabelRows: the label entry is made explicit (an absent label is 0) -/
-def labelDict (d : Dict) (key : Key) : Dict := if (d.map (·.1)).contains key then d else d ++ [(key, .int 0)]
-
-theorem dget_labelDict (d : Dict) (key k : Key) :
-    dget (labelDict d key) k = match dget d k with | some v => some v | none => if k = key then some (.int 0) else none := by
-  unfold labelDict
-  by_cases hc : (d.map (·.1)).contains key = true
-  · rw [if_pos hc]
-    cases hd : dget d k with
-    | some v => rfl
-    | none =>
-      have hk : k ∉ d.map (·.1) := (dget_none_iff_not_mem d k).1 hd
-      have hkey : key ∈ d.map (·.1) := (contains_iff_mem _ _).1 hc
-      have : k ≠ key := fun h => hk (h ▸ hkey)
-      simp [this]
-  · rw [if_neg hc, dget_append]
-    cases hd : dget d k with
-    | some v => rfl
-    | none =>
-      by_cases hk : k = key
-      · subst hk; simp [dget]
-      · have : ¬ key = k := fun h => hk h.symm
-        simp [dget, hk, this]
-
-theorem nodup_labelDict {d : Dict} (key : Key) (hn : (d.map (·.1)).Nodup) : ((labelDict d key).map (·.1)).Nodup := by
-  unfold labelDict
-  by_cases hc : (d.map (·.1)).contains key = true
-  · rw [if_pos hc]; exact hn
-  · have hkey : key ∉ d.map (·.1) := fun h => hc ((contains_iff_mem _ _).2 h)
-    rw [if_neg hc]
-    simp only [List.map_append, List.map_cons, List.map_nil]
-    rw [List.nodup_append]
-    refine ⟨hn, by simp, ?_⟩
-    intro a ha b hb hab
-    simp at hb; subst hb; subst hab; exact hkey ha
-
-theorem refS_label {r : SRow} {e : EagerS} (h : RefS r e) (hw : WFS e) (key : Key) (t : Option String) (lab) :
-    RefS (.label r key t) ⟨labelDict e.d key, lab, e.miss, e.inv⟩ := by
-  obtain ⟨its, hits, hnd, heq⟩ := h.items
-  obtain ⟨ks, hks, hknd, hkm⟩ := h.keys
-  have hcont : (its.map (·.1)).contains key = (e.d.map (·.1)).contains key := by
-    have := mem_keys_of_equiv heq key
-    by_cases h1 : key ∈ its.map (·.1)
-    · have h2 := this.1 h1
-      rw [(contains_iff_mem _ _).2 h1, (contains_iff_mem _ _).2 h2]
-    · have h2 : key ∉ e.d.map (·.1) := fun h' => h1 (this.2 h')
-      have c1 : (its.map (·.1)).contains key = false := by
-        cases hc : (its.map (·.1)).contains key with
-        | false => rfl
-        | true => exact absurd ((contains_iff_mem _ _).1 hc) h1
-      have c2 : (e.d.map (·.1)).contains key = false := by
-        cases hc : (e.d.map (·.1)).contains key with
-        | false => rfl
-        | true => exact absurd ((contains_iff_mem _ _).1 hc) h2
-      rw [c1, c2]
-  have hkeys : ∀ k, k ∈ kunion ks [key] ↔ (dget (labelDict e.d key) k).isSome := by
-    intro k
-    rw [mem_kunion, hkm k, dget_labelDict]
-    cases hd : dget e.d k with
-    | some v => simp
-    | none => by_cases hk : k = key <;> simp [hk]
-  have hknd' := nodup_kunion ks [key] hknd
-  refine ⟨?_, ⟨labelDict its key, ?_, nodup_labelDict key hnd, ?_⟩, ⟨kunion ks [key], by simp [SRow.keys, hks], hknd', hkeys⟩, ?_, h.miss, h.inv⟩
-  · intro k
-    simp only [SRow.get, h.get k, dget_labelDict]
-    cases hd : dget e.d k with
-    | some v => rfl
-    | none => by_cases hk : k = key <;> simp [optRes, hk]
-  · simp only [SRow.items, hits, labelDict]
-    split <;> rfl
-  · intro k
-    rw [dget_labelDict, dget_labelDict, heq k]
-  · simp only [SRow.len, SRow.keys, hks]
-    exact congrArg Except.ok (length_of_keys hknd' (nodup_labelDict key hw.nodup) hkeys)
-
-
-theorem applyEntry_spec {f : Key → Val → Res Val} {d t : Dict} (h : mapMRes (applyEntry f) d = .ok t) :
-    t.map (·.1) = d.map (·.1) ∧
-    (∀ k, dget t k = match dget d k with | some v => (f k v).toOption | none => none) ∧
-    (∀ p ∈ d, ∃ v', f p.1 p.2 = .ok v') := by
-  induction d generalizing t with
-  | nil => simp [mapMRes] at h; subst h; simp [dget]
-  | cons p rest ih =>
-    obtain ⟨x, y⟩ := p
-    simp only [mapMRes, applyEntry] at h
-    cases hf : f x y with
-    | error er => simp [hf] at h
-    | ok v' =>
-      simp only [hf] at h
-      cases hr : mapMRes (applyEntry f) rest with
-      | error er => simp [hr] at h
-      | ok t' =>
-        simp [hr] at h; subst h
-        obtain ⟨h1, h2, h3⟩ := ih hr
-        refine ⟨by simp [h1], ?_, ?_⟩
-        · intro k
-          simp only [dget]
-          by_cases hx : x = k
-          · subst hx; simp [hf, Except.toOption]
-          · simp [hx, h2 k]
-        · intro p hp
-          rcases List.mem_cons.1 hp with rfl | hp
-          · exact ⟨v', hf⟩
-          · exact h3 p hp
-
-theorem applyEntry_total {f : Key → Val → Res Val} {d : Dict} (h : ∀ p ∈ d, ∃ v', f p.1 p.2 = .ok v') :
-    ∃ t, mapMRes (applyEntry f) d = .ok t := by
-  induction d with
-  | nil => exact ⟨[], rfl⟩
-  | cons p rest ih =>
-    obtain ⟨v', hv⟩ := h p (by simp)
-    obtain ⟨t, ht⟩ := ih (fun q hq => h q (by simp [hq]))
-    exact ⟨(p.1, v') :: t, by simp [mapMRes, applyEntry, hv, ht]⟩
-
-theorem zeroEntry_spec {g : Key → Val → Res Val} {ks : List Key} {t : Dict} (h : mapMRes (zeroEntry g) ks = .ok t) :
-    t.map (·.1) = ks ∧
-    (∀ k, dget t k = if k ∈ ks then (g k (.str "0")).toOption else none) ∧
-    (∀ k ∈ ks, ∃ v, g k (.str "0") = .ok v) := by
-  induction ks generalizing t with
-  | nil => simp [mapMRes] at h; subst h; simp [dget]
-  | cons x rest ih =>
-    simp only [mapMRes, zeroEntry] at h
-    cases hf : g x (.str "0") with
-    | error er => simp [hf] at h
-    | ok v' =>
-      simp only [hf] at h
-      cases hr : mapMRes (zeroEntry g) rest with
-      | error er => simp [hr] at h
-      | ok t' =>
-        simp [hr] at h; subst h
-        obtain ⟨h1, h2, h3⟩ := ih hr
-        refine ⟨by simp [h1], ?_, ?_⟩
-        · intro k
-          simp only [dget, List.mem_cons]
-          by_cases hx : x = k
-          · subst hx; simp [hf, Except.toOption]
-          · have : ¬ k = x := fun h' => hx h'.symm
-            simp [hx, this, h2 k]
-        · intro k hk
-          rcases List.mem_cons.1 hk with rfl | hk
-          · exact ⟨v', hf⟩
-          · exact h3 k hk
-
-theorem zeroEntry_congr {g g' : Key → Val → Res Val} {ks : List Key} (h : ∀ k ∈ ks, g k (.str "0") = g' k (.str "0")) :
-    mapMRes (zeroEntry g) ks = mapMRes (zeroEntry g') ks := by
-  induction ks with
-  | nil => rfl
-  | cons x rest ih =>
-    simp only [mapMRes, zeroEntry, h x (by simp), ih (fun k hk => h k (by simp [hk]))]
-
-theorem mem_nspOf {enc : List (Key × Enc)} {k : Key} (h : k ∈ nspOf enc) : ∃ e, dget enc k = some e := by
-  simp only [nspOf, List.mem_map, List.mem_filter] at h
-  obtain ⟨p, ⟨hp, _⟩, rfl⟩ := h
-  have : p.1 ∈ enc.map (·.1) := List.mem_map.2 ⟨p, hp, rfl⟩
-  have := (dget_isSome_iff_mem enc p.1).2 this
-  cases hd : dget enc p.1 with
-  | none => simp [hd] at this
-  | some e => exact ⟨e, rfl⟩
-
-theorem encZero_eq {enc : List (Key × Enc)} {k : Key} (h : k ∈ nspOf enc) (v : Val) :
-    encZero enc k v = (encOf enc k).apply v := by
-  obtain ⟨e, he⟩ := mem_nspOf h
-  simp [encZero, encOf, he]
-
-/-- the dict produced by the eager sparse encoding, as a finite map -/
-theorem encodeDictE_spec {enc : List (Key × Enc)} {app : Enc → Val → Res Val} {d d' : Dict}
-    (hn : (d.map (·.1)).Nodup) (h : encodeDictE enc app d = .ok d') :
-    (d'.map (·.1)).Nodup ∧
-    (∀ k, dget d' k = match dget d k with
-      | some v => (app (encOf enc k) v).toOption
-      | none => if k ∈ nspOf enc then (app (encOf enc k) (.str "0")).toOption else none) ∧
-    (∀ p ∈ d, ∃ v', app (encOf enc p.1) p.2 = .ok v') ∧
-    (∀ k ∈ nspOf enc, dget d k = none → ∃ v0, app (encOf enc k) (.str "0") = .ok v0) ∧
-    ∃ t1 t2, mapMRes (applyEntry (fun k v => app (encOf enc k) v)) d = .ok t1 ∧
-      mapMRes (zeroEntry (fun k v => app (encOf enc k) v)) (kdiff (nspOf enc) (d.map (·.1))) = .ok t2 ∧ d' = t1 ++ t2 := by
-  simp only [encodeDictE] at h
-  cases h1 : mapMRes (applyEntry (fun k v => app (encOf enc k) v)) d with
-  | error er => simp [h1] at h
-  | ok t1 =>
-    simp only [h1] at h
-    cases h2 : mapMRes (zeroEntry (fun k v => app (encOf enc k) v)) (kdiff (nspOf enc) (d.map (·.1))) with
-    | error er => simp [h2] at h
-    | ok t2 =>
-      simp [h2] at h; subst h
-      obtain ⟨a1, a2, a3⟩ := applyEntry_spec h1
-      obtain ⟨b1, b2, b3⟩ := zeroEntry_spec h2
-      refine ⟨?_, ?_, a3, ?_, t1, t2, rfl, rfl, rfl⟩
-      · simp only [List.map_append, a1, b1]
-        rw [List.nodup_append]
-        refine ⟨hn, nodup_kdiff _ _, ?_⟩
-        intro x hx y hy hxy; subst hxy
-        exact ((mem_kdiff _ _ _).1 hy).2 hx
-      · intro k
-        rw [dget_append, a2 k]
-        cases hd : dget d k with
-        | some v =>
-          obtain ⟨v', hv'⟩ := a3 (k, v) (dget_some_mem hd)
-          simp only at hv'
-          simp [hv', Except.toOption]
-        | none =>
-          have hk : k ∉ d.map (·.1) := (dget_none_iff_not_mem d k).1 hd
-          simp only [b2 k, mem_kdiff]
-          by_cases hm : k ∈ nspOf enc <;> simp [hm, hk]
-      · intro k hk hd
-        have hk' : k ∉ d.map (·.1) := (dget_none_iff_not_mem d k).1 hd
-        exact b3 k ((mem_kdiff _ _ _).2 ⟨hk, hk'⟩)
-
-
-theorem refS_encode {r : SRow} {e : EagerS} (h : RefS r e) (hw : WFS e) (enc : List (Key × Enc)) (d' : Dict)
-    (hd : encodeDictE enc Enc.apply e.d = .ok d') :
-    RefS (.encode r enc (nspOf enc)) { e with d := d' } ∧ (d'.map (·.1)).Nodup := by
-  obtain ⟨its, hits, hnd, heq⟩ := h.items
-  obtain ⟨ks, hks, hknd, hkm⟩ := h.keys
-  obtain ⟨hdn, hdg, hsucc, hzero, t1, t2, ht1, ht2, hdd⟩ := encodeDictE_spec hw.nodup hd
-  -- the model's items: the same encoding of an equivalent dict
-  have htot : ∀ p ∈ its, ∃ v', (fun k v => (encOf enc k).apply v) p.1 p.2 = .ok v' := by
-    intro p hp
-    have h1 : dget its p.1 = some p.2 := dget_of_mem_nodup hnd hp
-    rw [heq] at h1
-    exact hsucc (p.1, p.2) (dget_some_mem h1)
-  obtain ⟨t1', ht1'⟩ := applyEntry_total (f := fun k v => (encOf enc k).apply v) (d := its) htot
-  obtain ⟨a1, a2, _⟩ := applyEntry_spec ht1'
-  obtain ⟨c1, c2, _⟩ := applyEntry_spec ht1
-  obtain ⟨b1, b2, _⟩ := zeroEntry_spec ht2
-  have hkd : kdiff (nspOf enc) (its.map (·.1)) = kdiff (nspOf enc) (e.d.map (·.1)) :=
-    kdiff_congr _ _ _ (mem_keys_of_equiv heq)
-  have ht2' : mapMRes (zeroEntry (encZero enc)) (kdiff (nspOf enc) (its.map (·.1))) = .ok t2 := by
-    rw [hkd, ← ht2]
-    apply zeroEntry_congr
-    intro k hk
-    exact encZero_eq ((mem_kdiff _ _ _).1 hk).1 _
-  have hitems : (SRow.encode r enc (nspOf enc)).items = .ok (t1' ++ t2) := by
-    simp only [SRow.items, hits, ht1', ht2']
-  have hkeys : ∀ k, k ∈ kunion ks (nspOf enc) ↔ (dget d' k).isSome := by
-    intro k
-    rw [mem_kunion, hkm k, hdg k]
-    cases hdk : dget e.d k with
-    | some v =>
-      obtain ⟨v', hv'⟩ := hsucc (k, v) (dget_some_mem hdk)
-      simp only at hv'
-      simp [hv', Except.toOption]
-    | none =>
-      by_cases hm : k ∈ nspOf enc
-      · obtain ⟨v0, hv0⟩ := hzero k hm hdk
-        simp [hm, hv0, Except.toOption]
-      · simp [hm]
-  have hknd' := nodup_kunion ks (nspOf enc) hknd
-  refine ⟨⟨?_, ⟨t1' ++ t2, hitems, ?_, ?_⟩, ⟨kunion ks (nspOf enc), by simp [SRow.keys, hks], hknd', hkeys⟩, ?_, h.miss, h.inv⟩, hdn⟩
-  · intro k
-    simp only [SRow.get, h.get k, hdg k]
-    cases hdk : dget e.d k with
-    | some v =>
-      obtain ⟨v', hv'⟩ := hsucc (k, v) (dget_some_mem hdk)
-      simp only at hv'
-      simp [optRes, hv', Except.toOption]
-    | none =>
-      simp only [optRes]
-      by_cases hm : k ∈ nspOf enc
-      · obtain ⟨v0, hv0⟩ := hzero k hm hdk
-        simp [hm, hv0, Except.toOption]
-      · simp [hm]
-  · simp only [List.map_append, a1, b1]
-    rw [List.nodup_append]
-    refine ⟨hnd, nodup_kdiff _ _, ?_⟩
-    intro x hx y hy hxy; subst hxy
-    exact ((mem_kdiff _ _ _).1 hy).2 ((mem_keys_of_equiv heq x).1 hx)
-  · intro k
-    rw [hdd, dget_append, dget_append, a2 k, c2 k, heq k]
-  · simp only [SRow.len, SRow.keys, hks]
-    exact congrArg Except.ok (length_of_keys hknd' hdn hkeys)
-
-
-/-! ### renaming keys through a bijective header map -/
-
-def swapList (m : KMap) : KMap := m.map (fun p => (p.2, p.1))
-
-theorem swapMap_eq (fwd : KMap) (h : (fwd.map (·.2)).Nodup) : swapMap fwd = swapList fwd := by
-  have := foldl_dset_append ([] : KMap) (swapList fwd) (by simpa [swapList, Function.comp_def] using h) (by simp)
-  simp only [List.nil_append] at this
-  rw [← this]
-  simp only [swapMap, swapList, List.foldl_map]
-
-theorem snd_inj_of_nodup {l : KMap} (h : (l.map (·.2)).Nodup) {a b n : Key} (ha : (a, n) ∈ l) (hb : (b, n) ∈ l) : a = b := by
-  induction l with
-  | nil => simp at ha
-  | cons p t ih =>
-    simp only [List.map_cons, List.nodup_cons] at h
-    rcases List.mem_cons.1 ha with rfl | ha'
-    · rcases List.mem_cons.1 hb with hb' | hb'
-      · exact (Prod.mk.inj hb').1.symm ▸ rfl
-      · exact absurd (List.mem_map.2 ⟨(b, n), hb', rfl⟩) h.1
-    · rcases List.mem_cons.1 hb with rfl | hb'
-      · exact absurd (List.mem_map.2 ⟨(a, n), ha', rfl⟩) h.1
-      · exact ih h.2 ha' hb'
-
-structure Bij (inv : KMap) : Prop where
-  keys : (inv.map (·.1)).Nodup
-  vals : (inv.map (·.2)).Nodup
-
-theorem Bij.inj {inv : KMap} (hb : Bij inv) {a b n : Key} (ha : dget inv a = some n) (hb' : dget inv b = some n) : a = b :=
-  snd_inj_of_nodup hb.vals (dget_some_mem ha) (dget_some_mem hb')
-
-theorem Bij.fwd_iff {inv : KMap} (hb : Bij inv) (n k : Key) : dget (swapList inv) n = some k ↔ dget inv k = some n := by
-  have hk : ((swapList inv).map (·.1)).Nodup := by simpa [swapList, Function.comp_def] using hb.vals
-  constructor
-  · intro h
-    have := dget_some_mem h
-    simp only [swapList, List.mem_map] at this
-    obtain ⟨p, hp, hpe⟩ := this
-    obtain ⟨x, y⟩ := p
-    simp only [Prod.mk.injEq] at hpe
-    obtain ⟨rfl, rfl⟩ := hpe
-    exact dget_of_mem_nodup hb.keys hp
-  · intro h
-    have := dget_some_mem h
-    exact dget_of_mem_nodup hk (List.mem_map.2 ⟨(k, n), this, rfl⟩)
-
-/-- renaming a dict through a bijective map: lookups go through the inverse map -/
-theorem renameE_spec {inv : KMap} (hb : Bij inv) {d d' : Dict} (h : renameE inv d = .ok d') :
-    d'.length = d.length ∧
-    (∀ n, dget d' n = match dget (swapList inv) n with | some k => dget d k | none => none) ∧
-    ((d.map (·.1)).Nodup → (d'.map (·.1)).Nodup) ∧
-    (∀ k ∈ d.map (·.1), ∃ n, dget inv k = some n) := by
-  induction d generalizing d' with
-  | nil => simp [renameE, mapMRes] at h; subst h; simp [dget]; intro n; split <;> rfl
-  | cons p rest ih =>
-    obtain ⟨x, y⟩ := p
-    simp only [renameE, mapMRes, renameEntry] at h
-    cases hx : dget inv x with
-    | none => simp [hx] at h
-    | some nx =>
-      simp only [hx] at h
-      cases hr : mapMRes (renameEntry inv) rest with
-      | error er => simp [hr] at h
-      | ok t =>
-        simp [hr] at h; subst h
-        obtain ⟨h1, h2, h3, h4⟩ := ih (d' := t) (by simpa [renameE] using hr)
-        refine ⟨by simp [h1], ?_, ?_, ?_⟩
-        · intro n
-          simp only [dget]
-          by_cases hn : nx = n
-          · subst hn
-            have := (hb.fwd_iff nx x).2 hx
-            simp [this]
-          · simp only [hn, if_false, h2 n]
-            cases hf : dget (swapList inv) n with
-            | none => rfl
-            | some k =>
-              have hk := (hb.fwd_iff n k).1 hf
-              have : x ≠ k := by
-                intro hxk; subst hxk
-                rw [hx] at hk; exact hn (Option.some.inj hk)
-              simp [this]
-        · intro hnd
-          simp only [List.map_cons, List.nodup_cons] at hnd ⊢
-          refine ⟨?_, h3 hnd.2⟩
-          intro hmem
-          have hs : (dget t nx).isSome := (dget_isSome_iff_mem t nx).2 hmem
-          rw [h2 nx, (hb.fwd_iff nx x).2 hx] at hs
-          exact hnd.1 ((dget_isSome_iff_mem rest x).1 hs)
-        · intro k hk
-          rcases List.mem_cons.1 hk with rfl | hk
-          · exact ⟨nx, hx⟩
-          · exact h4 k hk
-
-theorem renameE_total {inv : KMap} {d : Dict} (h : ∀ k ∈ d.map (·.1), ∃ n, dget inv k = some n) :
-    ∃ d', renameE inv d = .ok d' := by
-  induction d with
-  | nil => exact ⟨[], rfl⟩
-  | cons p rest ih =>
-    obtain ⟨n, hn⟩ := h p.1 (by simp)
-    obtain ⟨t, ht⟩ := ih (fun k hk => h k (by simp [hk]))
-    simp only [renameE] at ht
-    exact ⟨(n, p.2) :: t, by simp [renameE, mapMRes, renameEntry, hn, ht]⟩
-
-theorem renameKeys_spec {inv : KMap} (hb : Bij inv) {ks ks' : List Key} (h : mapMRes (renameKey inv) ks = .ok ks') :
-    (∀ n, n ∈ ks' ↔ ∃ k, k ∈ ks ∧ dget inv k = some n) ∧ (ks.Nodup → ks'.Nodup) := by
-  induction ks generalizing ks' with
-  | nil => simp [mapMRes] at h; subst h; simp
-  | cons x rest ih =>
-    simp only [mapMRes, renameKey] at h
-    cases hx : dget inv x with
-    | none => simp [hx] at h
-    | some nx =>
-      simp only [hx] at h
-      cases hr : mapMRes (renameKey inv) rest with
-      | error er => simp [hr] at h
-      | ok t =>
-        simp [hr] at h; subst h
-        obtain ⟨h1, h2⟩ := ih hr
-        refine ⟨?_, ?_⟩
-        · intro n
-          simp only [List.mem_cons, h1 n]
-          constructor
-          · rintro (rfl | ⟨k, hk, hkn⟩)
-            · exact ⟨x, Or.inl rfl, hx⟩
-            · exact ⟨k, Or.inr hk, hkn⟩
-          · rintro ⟨k, (rfl | hk), hkn⟩
-            · rw [hx] at hkn; exact Or.inl (Option.some.inj hkn).symm
-            · exact Or.inr ⟨k, hk, hkn⟩
-        · intro hnd
-          simp only [List.nodup_cons] at hnd ⊢
-          refine ⟨?_, h2 hnd.2⟩
-          intro hmem
-          obtain ⟨k, hk, hkn⟩ := (h1 nx).1 hmem
-          have := hb.inj hkn hx
-          subst this
-          exact hnd.1 hk
-
-theorem renameKeys_total {inv : KMap} {ks : List Key} (h : ∀ k ∈ ks, ∃ n, dget inv k = some n) :
-    ∃ ks', mapMRes (renameKey inv) ks = .ok ks' := by
-  induction ks with
-  | nil => exact ⟨[], rfl⟩
-  | cons x rest ih =>
-    obtain ⟨n, hn⟩ := h x (by simp)
-    obtain ⟨t, ht⟩ := ih (fun k hk => h k (by simp [hk]))
-    exact ⟨n :: t, by simp [mapMRes, renameKey, hn, ht]⟩
-
-
-theorem swapList_swapList (m : KMap) : swapList (swapList m) = m := by
-  simp [swapList, Function.comp_def]
-
-theorem refS_head {r : SRow} {e : EagerS} (h : RefS r e) (hw : WFS e) (inv : KMap) (hb : Bij inv) (d' : Dict)
-    (hd : renameE inv e.d = .ok d') (lab) :
-    RefS (.head r (swapList inv) (swapMap (swapList inv))) ⟨d', lab, e.miss, inv⟩ ∧ (d'.map (·.1)).Nodup := by
-  obtain ⟨its, hits, hnd, heq⟩ := h.items
-  obtain ⟨ks, hks, hknd, hkm⟩ := h.keys
-  have hinv : swapMap (swapList inv) = inv := by
-    rw [swapMap_eq _ (by simpa [swapList, Function.comp_def] using hb.keys), swapList_swapList]
-  obtain ⟨hlen, hdg, hdn, hdom⟩ := renameE_spec hb hd
-  have hdn' := hdn hw.nodup
-  -- items
-  have hdom_its : ∀ k ∈ its.map (·.1), ∃ n, dget inv k = some n :=
-    fun k hk => hdom k ((mem_keys_of_equiv heq k).1 hk)
-  obtain ⟨its', hits'⟩ := renameE_total hdom_its
-  obtain ⟨_, hdg', hdn'', _⟩ := renameE_spec hb hits'
-  -- keys
-  have hdom_ks : ∀ k ∈ ks, ∃ n, dget inv k = some n :=
-    fun k hk => hdom k ((dget_isSome_iff_mem e.d k).1 ((hkm k).1 hk))
-  obtain ⟨ks', hks'⟩ := renameKeys_total hdom_ks
-  obtain ⟨hmem, hknd'⟩ := renameKeys_spec hb hks'
-  have hkeys : ∀ n, n ∈ ks' ↔ (dget d' n).isSome := by
-    intro n
-    rw [hmem n, hdg n]
-    constructor
-    · rintro ⟨k, hk, hkn⟩
-      rw [(hb.fwd_iff n k).2 hkn]
-      exact (hkm k).1 hk
-    · intro hs
-      cases hf : dget (swapList inv) n with
-      | none => simp [hf] at hs
-      | some k =>
-        simp only [hf] at hs
-        exact ⟨k, (hkm k).2 hs, (hb.fwd_iff n k).1 hf⟩
-  refine ⟨⟨?_, ⟨its', ?_, hdn'' hnd, ?_⟩, ⟨ks', ?_, hknd' hknd, hkeys⟩, ?_, h.miss, hinv⟩, hdn'⟩
-  · intro n
-    simp only [SRow.get, hdg n]
-    cases hf : dget (swapList inv) n with
-    | none => rfl
-    | some k => simp only [h.get k]
-  · simp only [SRow.items, hits, hinv]
-    simpa [renameE] using hits'
-  · intro n
-    rw [hdg' n, hdg n]
-    cases dget (swapList inv) n with
-    | none => rfl
-    | some k => exact heq k
-  · simp only [SRow.keys, hks, hinv, hks']
-  · simp only [SRow.len, h.len, hlen]
-
-
-theorem kdiff_nil (a : List Key) : kdiff [] a = [] := rfl
-
-theorem kunion_nil (a : List Key) : kunion a [] = a := by simp [kunion, kdiff_nil]
-
-theorem distinct_iff {α} [DecidableEq α] (l : List α) : distinct l = true ↔ l.Nodup := by simp [distinct]
-
-theorem map_id_entry (d : Dict) : d.map (fun p => ((dget ([] : KMap) p.1).getD p.1, p.2)) = d := by
-  induction d with
-  | nil => rfl
-  | cons p t _ => simp [dget]
-
-/-- LazySparse without a header map (with or without loader / encoders) -/
-theorem refS_lazy_simple (d : Dict) (loader : Bool) (enc : List (Key × Enc)) (miss : Bool) (e : EagerS)
-    (hb : eagerBaseS (.lazy d loader enc none miss) = .ok e) :
-    RefS (baseS (.lazy d loader enc none miss)) e ∧ WFS e := by
-  simp only [eagerBaseS] at hb
-  split at hb
-  · rename_i hok
-    simp only [Bool.and_eq_true, distinct_iff] at hok
-    have hn := hok.1
-    by_cases hem : enc.isEmpty = true
-    · simp only [hem, if_true, map_id_entry] at hb
-      simp at hb; subst hb
-      have hcell : (mkCell loader d).get = d := mkCell_get _ _
-      refine ⟨⟨?_, ⟨d, ?_, hn, fun _ => rfl⟩, ⟨d.map (·.1), ?_, hn, fun k => (dget_isSome_iff_mem d k).symm⟩, ?_, rfl, rfl⟩, ⟨hn, by simp⟩⟩
-      · intro k
-        simp only [baseS, SRow.get, hcell, dget, Option.getD, hem]
-        cases dget d k <;> simp [optRes]
-      · simp [baseS, SRow.items, hcell, hem]
-      · simp [baseS, SRow.keys, hcell, kunion_nil]
-      · simp [baseS, SRow.len, hcell, kunion_nil]
-    · have hem' : enc.isEmpty = false := by simpa using hem
-      simp only [hem', Bool.false_eq_true, if_false] at hb
-      cases hm : mapMRes (applyEntry (fun k v => lazyApply (encOf enc k) v)) d with
-      | error er => simp [hm] at hb
-      | ok d' =>
-        simp only [hm, map_id_entry] at hb
-        simp at hb; subst hb
-        obtain ⟨a1, a2, a3⟩ := applyEntry_spec hm
-        have hcell : (mkCell loader d).get = d := mkCell_get _ _
-        have hn' : (d'.map (·.1)).Nodup := by rw [a1]; exact hn
-        have hkeys : ∀ k, k ∈ d.map (·.1) ↔ (dget d' k).isSome := by
-          intro k; rw [dget_isSome_iff_mem, a1]
-        have hid : d'.map (fun p => ((if ([] : KMap).isEmpty = true then p.1 else (dget ([] : KMap) p.1).getD p.1), p.2)) = d' := by
-          induction d' with
-          | nil => rfl
-          | cons p t ih => simp
-        refine ⟨⟨?_, ⟨d', ?_, hn', fun _ => rfl⟩, ⟨d.map (·.1), ?_, hn, hkeys⟩, ?_, rfl, rfl⟩, ⟨hn', by simp⟩⟩
-        · intro k
-          simp only [baseS, SRow.get, hcell, dget, Option.getD, hem', a2 k]
-          cases hd : dget d k with
-          | none => simp [optRes]
-          | some v =>
-            obtain ⟨v', hv'⟩ := a3 (k, v) (dget_some_mem hd)
-            simp only at hv'
-            simp [optRes, hv', Except.toOption]
-        · simp only [baseS, SRow.items, hcell, hem', kdiff_nil, List.map_nil, List.append_nil, hm]
-          simp
-        · simp [baseS, SRow.keys, hcell, kunion_nil]
-        · simp [baseS, SRow.len, hcell, kunion_nil, ← a1]
-  · simp at hb
-
-/-- the sparse base is a dict or a LazySparse without header map -/
-def simpleBase : SBase → Prop
-  | .plain _ => True
-  | .lazy _ _ _ hdr _ => hdr = none
-  | .arff _ _ _ => False
-
-/-- the stage is not an effective EncodeCatRows -/
-def notCat : Stage → Prop
-  | .enccat (some _) => False
-  | _ => True
-
-theorem baseS_refines (b : SBase) (hs : simpleBase b)
-    (e : EagerS) (hb : eagerBaseS b = .ok e) : RefS (baseS b) e ∧ WFS e := by
-  cases b with
-  | plain d =>
-    simp only [eagerBaseS] at hb
-    split at hb
-    · rename_i hok
-      simp at hb; subst hb
-      have hn := (distinct_iff _).1 hok
-      exact ⟨refS_plain d hn none, ⟨hn, by simp⟩⟩
-    · simp at hb
-  | lazy d loader enc hdr miss =>
-    simp only [simpleBase] at hs; subst hs
-    exact refS_lazy_simple d loader enc miss e hb
-  | arff cols raw miss => exact absurd hs id
-
-
-theorem evalPredS_of_eager {r : SRow} {e : EagerS} (h : RefS r e) (pred : Option Pred) (b : Bool)
-    (hp : evalPredE pred e.miss (dget e.d) = .ok b) : evalPredS pred r = .ok b := by
-  cases pred with
-  | none => simpa [evalPredE, evalPredS] using hp
-  | some p =>
-    cases p with
-    | missing =>
-      simp only [evalPredE] at hp
-      cases hm : e.miss with
-      | none => simp [hm] at hp
-      | some m =>
-        simp only [hm] at hp
-        have := h.miss; rw [hm] at this
-        simp only [evalPredS, toOption_eq_some this]; exact hp
-    | cellEq k v =>
-      simp only [evalPredE] at hp
-      cases hg : dget e.d k with
-      | none => simp [hg] at hp
-      | some x =>
-        simp only [hg] at hp
-        simp only [evalPredS, h.get k, hg, optRes]; exact hp
-
-theorem bij_of_distinct {inv : KMap} (h : (distinct (inv.map (·.1)) && distinct (inv.map (·.2))) = true) : Bij inv := by
-  simp only [Bool.and_eq_true, distinct_iff] at h
-  exact ⟨h.1, h.2⟩
-
-theorem headS_refines {r : SRow} {e : EagerS} (h : RefS r e) (hw : WFS e) (inv : KMap) (e' : EagerS)
-    (he : eagerHeadS inv e = .ok (some e')) :
-    RefS (.head r (swapList inv) (swapMap (swapList inv))) e' ∧ WFS e' := by
-  simp only [eagerHeadS] at he
-  split at he
-  · rename_i hok
-    have hb := bij_of_distinct hok
-    cases hd : renameE inv e.d with
-    | error er => simp [hd] at he
-    | ok d' =>
-      simp only [hd] at he
-      split at he
-      · simp at he
-      · rename_i lab hlab
-        simp at he; subst he
-        obtain ⟨href, hdn⟩ := refS_head h hw inv hb d' hd lab
-        refine ⟨href, ⟨hdn, ?_⟩⟩
-        intro k t hl
-        subst hl
-        obtain ⟨_, hdg, _, _⟩ := renameE_spec hb hd
-        cases hel : e.lab with
-        | none => simp [hel] at hlab
-        | some kt =>
-          obtain ⟨k0, t0⟩ := kt
-          simp only [hel] at hlab
-          cases hi : dget inv k0 with
-          | none => simp [hi] at hlab
-          | some n =>
-            simp [hi] at hlab
-            obtain ⟨rfl, rfl⟩ := hlab
-            rw [hdg, (hb.fwd_iff _ k0).2 hi]
-            exact hw.lab k0 _ hel
-  · simp at he
-
-theorem eagerHeadS_ne_none (inv : KMap) (e : EagerS) : eagerHeadS inv e ≠ .ok none := by
-  simp only [eagerHeadS]
-  split
-  · split
-    · simp
-    · split <;> simp
-  · simp
-
-theorem nodup_zipIdx_pos {α} (es : List α) (k : Nat) : ((es.zipIdx k).map (fun p => Key.pos p.2)).Nodup := by
-  induction es generalizing k with
-  | nil => simp
-  | cons x t ih =>
-    simp only [List.zipIdx_cons, List.map_cons, List.nodup_cons]
-    refine ⟨?_, ih (k + 1)⟩
-    intro hm
-    simp only [List.mem_map] at hm
-    obtain ⟨p, hp, hpe⟩ := hm
-    have := List.mem_zipIdx hp
-    simp at hpe
-    omega
-
-/-- one stage on a sparse row (EncodeCatRows is not covered: see notes) -/
-theorem stageS_refines (st : Stage) (hst : notCat st)
-    {r : SRow} {e : EagerS} (h : RefS r e) (hw : WFS e) :
-    (∀ e', eagerStageS st e = .ok (some e') → ∃ r', applyS st r = .ok (some r') ∧ RefS r' e' ∧ WFS e') ∧
-    (eagerStageS st e = .ok none → applyS st r = .ok none) := by
-  cases st with
-  | headNames ns =>
-    simp only [eagerStageS, applyS]
-    refine ⟨?_, fun he => absurd he (eagerHeadS_ne_none _ _)⟩
-    intro e' he
-    have := headS_refines h hw _ e' he
-    have hsw : swapList (ns.zipIdx.map (fun p => (Key.pos p.2, Key.name p.1))) = ns.zipIdx.map (fun p => (Key.name p.1, Key.pos p.2)) := by
-      simp [swapList, Function.comp_def]
-    rw [hsw] at this
-    exact ⟨_, rfl, this.1, this.2⟩
-  | headMap m =>
-    simp only [eagerStageS, applyS]
-    refine ⟨?_, fun he => absurd he (eagerHeadS_ne_none _ _)⟩
-    intro e' he
-    have := headS_refines h hw _ e' he
-    have hsw : swapList (m.map (fun p => (p.2, Key.name p.1))) = m.map (fun p => (Key.name p.1, p.2)) := by
-      simp [swapList, Function.comp_def]
-    rw [hsw] at this
-    exact ⟨_, rfl, this.1, this.2⟩
-  | encodeSeq es =>
-    simp only [eagerStageS, applyS]
-    refine ⟨?_, by intro he; split at he <;> simp at he⟩
-    intro e' he
-    cases hd : encodeDictE (es.zipIdx.map (fun p => (Key.pos p.2, p.1))) Enc.apply e.d with
-    | error er => simp [hd] at he
-    | ok d' =>
-      simp [hd] at he; subst he
-      obtain ⟨href, hdn⟩ := refS_encode h hw _ d' hd
-      refine ⟨_, rfl, href, ⟨hdn, ?_⟩⟩
-      intro k t hl
-      obtain ⟨_, hdg, hsucc, _⟩ := encodeDictE_spec hw.nodup hd
-      have hs := hw.lab k t hl
-      rw [hdg k]
-      cases hdk : dget e.d k with
-      | none => simp [hdk] at hs
-      | some v =>
-        obtain ⟨v', hv'⟩ := hsucc (k, v) (dget_some_mem hdk)
-        simp only at hv'
-        simp [hv', Except.toOption]
-  | encodeMap m =>
-    simp only [eagerStageS, applyS]
-    refine ⟨?_, by intro he; split at he <;> (try split at he) <;> simp at he⟩
-    intro e' he
-    split at he
-    · cases hd : encodeDictE m Enc.apply e.d with
-      | error er => simp [hd] at he
-      | ok d' =>
-        simp [hd] at he; subst he
-        obtain ⟨href, hdn⟩ := refS_encode h hw _ d' hd
-        refine ⟨_, rfl, href, ⟨hdn, ?_⟩⟩
-        intro k t hl
-        obtain ⟨_, hdg, hsucc, _⟩ := encodeDictE_spec hw.nodup hd
-        have hs := hw.lab k t hl
-        rw [hdg k]
-        cases hdk : dget e.d k with
-        | none => simp [hdk] at hs
-        | some v =>
-          obtain ⟨v', hv'⟩ := hsucc (k, v) (dget_some_mem hdk)
-          simp only at hv'
-          simp [hv', Except.toOption]
-    · simp at he
-  | drop cols pred =>
-    simp only [eagerStageS, applyS]
-    cases hp : evalPredE pred e.miss (dget e.d) with
-    | error er => simp
-    | ok b =>
-      rw [evalPredS_of_eager h pred b hp]
-      cases b with
-      | false => simp
-      | true =>
-        simp only
-        by_cases hc : cols.isEmpty = true
-        · simp only [hc, if_true]
-          exact ⟨by intro e' he; simp at he; subst he; exact ⟨r, rfl, h, hw⟩, by simp⟩
-        · have hc' : cols.isEmpty = false := by simpa using hc
-          simp only [hc', Bool.false_eq_true, if_false]
-          refine ⟨?_, by intro he; split at he <;> (try split at he) <;> simp at he⟩
-          intro e' he
-          have hwf : ∀ lab : Option (Key × Option String), (∀ k t, lab = some (k, t) → e.lab = some (k, t) ∧ cols.contains k = false) →
-              WFS ⟨e.d.filter (fun p => !cols.contains p.1), lab, e.miss, e.inv⟩ := by
-            intro lab hl
-            refine ⟨nodup_filter_keys (fun k => !cols.contains k) hw.nodup, ?_⟩
-            intro k t hlk
-            obtain ⟨h1, h2⟩ := hl k t hlk
-            rw [dget_filter_key e.d (fun k => !cols.contains k) k]
-            simp only [h2, Bool.not_false, if_true]
-            exact hw.lab k t h1
-          split at he
-          · rename_i k t hel
-            split at he
-            · simp at he
-            · rename_i hck
-              simp only [Except.ok.injEq, Option.some.injEq] at he; subst he
-              refine ⟨_, rfl, refS_drop h hw cols _, hwf _ ?_⟩
-              intro k' t' hl
-              injection hl with hl; injection hl with hk ht; subst hk; subst ht
-              exact ⟨hel, by simpa using hck⟩
-          · simp only [Except.ok.injEq, Option.some.injEq] at he; subst he
-            exact ⟨_, rfl, refS_drop h hw cols _, hwf _ (by intro k t hl; cases hl)⟩
-  | label k t =>
-    simp only [eagerStageS, applyS]
-    refine ⟨?_, by simp⟩
-    intro e' he
-    simp at he; subst he
-    rw [h.inv]
-    refine ⟨_, rfl, refS_label h hw (labelKey e.inv k) t _, ⟨nodup_labelDict (labelKey e.inv k) hw.nodup, ?_⟩⟩
-    intro k' t' hl
-    injection hl with hl; injection hl with hk ht; subst hk
-    have := dget_labelDict e.d (labelKey e.inv k) (labelKey e.inv k)
-    simp only [labelDict] at this
-    rw [this]
-    cases dget e.d (labelKey e.inv k) <;> simp
-  | enccat t =>
-    cases t with
-    | none =>
-      simp only [eagerStageS, applyS]
-      exact ⟨by intro e' he; simp at he; subst he; exact ⟨r, rfl, h, hw⟩, by simp⟩
-    | some m => exact absurd hst id
-
-
-/-- the pipeline contains no effective EncodeCatRows stage -/
-def noEnccat : List Stage → Prop
-  | [] => True
-  | .enccat (some _) :: _ => False
-  | _ :: rest => noEnccat rest
-
-theorem noEnccat_cons {st : Stage} {rest : List Stage} (h : noEnccat (st :: rest)) :
-    notCat st ∧ noEnccat rest := by
-  cases st with
-  | enccat t => cases t with
-    | none => exact ⟨trivial, h⟩
-    | some m => exact absurd h id
-  | _ => exact ⟨trivial, h⟩
-
-theorem buildS_refines (stages : List Stage) (hs : noEnccat stages) {r : SRow} {e : EagerS} (h : RefS r e) (hw : WFS e) :
-    (∀ e', eagerS stages e = .ok (some e') → ∃ r', buildS stages r = .ok (some r') ∧ RefS r' e' ∧ WFS e') ∧
-    (eagerS stages e = .ok none → buildS stages r = .ok none) := by
-  induction stages generalizing r e with
-  | nil =>
-    simp only [eagerS, buildS]
-    exact ⟨by intro e' he; simp at he; subst he; exact ⟨r, rfl, h, hw⟩, by simp⟩
-  | cons st rest ih =>
-    obtain ⟨hst, hrest⟩ := noEnccat_cons hs
-    obtain ⟨h1, h2⟩ := stageS_refines st hst h hw
-    simp only [eagerS, buildS]
-    cases hse : eagerStageS st e with
-    | error er => simp
-    | ok o =>
-      cases o with
-      | none => rw [h2 hse]; simp
-      | some e1 =>
-        obtain ⟨r1, hr1, href, hwf⟩ := h1 e1 hse
-        rw [hr1]
-        exact ih hrest href hwf
-
-theorem sparse_refines (b : SBase) (hb : simpleBase b) (stages : List Stage) (hs : noEnccat stages) (e0 : EagerS)
-    (he0 : eagerBaseS b = .ok e0) :
-    (∀ e, eagerS stages e0 = .ok (some e) → ∃ r, buildS stages (baseS b) = .ok (some r) ∧ RefS r e ∧ WFS e) ∧
-    (eagerS stages e0 = .ok none → buildS stages (baseS b) = .ok none) := by
-  obtain ⟨h, hw⟩ := baseS_refines b hb e0 he0
-  exact buildS_refines stages hs h hw
-
-theorem sparse_ref' (b : SBase) (hb : simpleBase b) (stages : List Stage) (hs : noEnccat stages) (e0 e : EagerS) (r : SRow)
-    (he0 : eagerBaseS b = .ok e0) (he : eagerS stages e0 = .ok (some e))
-    (hr : buildS stages (baseS b) = .ok (some r)) : RefS r e ∧ WFS e := by
-  obtain ⟨r', hr', href, hwf⟩ := (sparse_refines b hb stages hs e0 he0).1 e he
-  rw [hr] at hr'; cases hr'; exact ⟨href, hwf⟩
-
-/-! ### observations on sparse rows (sets and dicts are compared as sets / finite maps) -/
-
-/-- two observations agree: key sets as sets, dicts as finite maps, everything else literally -/
-def Obs.agree : Obs → Obs → Prop
-  | .keys a, .keys b => a.Nodup ∧ ∀ k, k ∈ a ↔ k ∈ b
-  | .dict a, .dict b => (a.map (·.1)).Nodup ∧ ∀ k, dget a k = dget b k
-  | .val a, .val b => a = b
-  | .nat a, .nat b => a = b
-  | .bool a, .bool b => a = b
-  | .ostr a, .ostr b => a = b
-  | .err, .err => True
-  | _, _ => False
-
-theorem nodup_of_map {α β} (f : α → β) {l : List α} (h : (l.map f).Nodup) : l.Nodup := by
-  induction l with
-  | nil => simp
-  | cons x t ih =>
-    simp only [List.map_cons, List.nodup_cons] at h ⊢
-    exact ⟨fun hm => h.1 (List.mem_map.2 ⟨x, hm, rfl⟩), ih h.2⟩
-
-theorem dictEq_congr {a a' b : Dict} (hn : (a.map (·.1)).Nodup) (hn' : (a'.map (·.1)).Nodup)
-    (h : ∀ k, dget a k = dget a' k) : SRow.dictEq a b = SRow.dictEq a' b := by
-  have hmem : ∀ p, p ∈ a ↔ p ∈ a' := by
-    intro p
-    constructor
-    · intro hp
-      have := dget_of_mem_nodup hn (k := p.1) (v := p.2) hp
-      rw [h] at this; exact dget_some_mem this
-    · intro hp
-      have := dget_of_mem_nodup hn' (k := p.1) (v := p.2) hp
-      rw [← h] at this; exact dget_some_mem this
-  have hnd : a.Nodup := nodup_of_map _ hn
-  have hnd' : a'.Nodup := nodup_of_map _ hn'
-  have hperm : a.Perm a' := (List.perm_ext_iff_of_nodup hnd hnd').2 hmem
-  simp only [SRow.dictEq, hperm.length_eq]
-  congr 1
-  exact hperm.all_eq
-
-theorem obsS_of_ref {r : SRow} {e : EagerS} (h : RefS r e) (hw : WFS e) (a : Acc)
-    (hna : match a with | .label => False | .tipe => False | .feats _ => False | _ => True)
-    (hdef : eagerObsS e a ≠ .undef) : (obsS r a).agree (eagerObsS e a) := by
-  obtain ⟨its, hits, hnd, heq⟩ := h.items
-  obtain ⟨ks, hks, hknd, hkm⟩ := h.keys
-  cases a with
-  | pos i => simp [eagerObsS] at hdef
-  | name k =>
-    simp only [eagerObsS] at hdef
-    simp only [obsS, eagerObsS, h.get k]
-    cases hg : dget e.d k with
-    | none => simp [hg] at hdef
-    | some v => simp [optRes, ofRes, Obs.agree]
-  | iter =>
-    simp only [obsS, eagerObsS, hks, ofRes, Obs.agree]
-    exact ⟨hknd, fun k => by rw [hkm k, dget_isSome_iff_mem]⟩
-  | keys =>
-    simp only [obsS, eagerObsS, hks, ofRes, Obs.agree]
-    exact ⟨hknd, fun k => by rw [hkm k, dget_isSome_iff_mem]⟩
-  | items =>
-    simp only [obsS, eagerObsS, hits, ofRes, Obs.agree]
-    exact ⟨hnd, heq⟩
-  | copy =>
-    simp only [obsS, eagerObsS, hits, ofRes, Obs.agree, toDict_of_nodup its hnd]
-    exact ⟨hnd, heq⟩
-  | len => simp [obsS, eagerObsS, h.len, ofRes, Obs.agree]
-  | headers => simp [eagerObsS] at hdef
-  | eq o =>
-    cases o with
-    | list l => simp [eagerObsS] at hdef
-    | dict d =>
-      simp only [obsS, eagerObsS, SRow.eqDict, hits, toDict_of_nodup its hnd, Obs.agree]
-      exact dictEq_congr hnd hw.nodup heq
-  | label => exact absurd hna id
-  | tipe => exact absurd hna id
-  | feats s => exact absurd hna id
-
-
-theorem eagerS_append (s1 s2 : List Stage) (e : EagerS) :
-    eagerS (s1 ++ s2) e = (match eagerS s1 e with
-      | .ok (some e1) => eagerS s2 e1
-      | .ok none => .ok none
-      | .error er => .error er) := by
-  induction s1 generalizing e with
-  | nil => simp [eagerS]
-  | cons st rest ih =>
-    simp only [List.cons_append, eagerS]
-    cases eagerStageS st e with
-    | error er => rfl
-    | ok o => cases o with
-      | none => rfl
-      | some e1 => exact ih e1
-
-theorem buildS_append (s1 s2 : List Stage) (r : SRow) :
-    buildS (s1 ++ s2) r = (match buildS s1 r with
-      | .ok (some r1) => buildS s2 r1
-      | .ok none => .ok none
-      | .error er => .error er) := by
-  induction s1 generalizing r with
-  | nil => simp [buildS]
-  | cons st rest ih =>
-    simp only [List.cons_append, buildS]
-    cases applyS st r with
-    | error er => rfl
-    | ok o => cases o with
-      | none => rfl
-      | some r1 => exact ih r1
-
-theorem feats_filter_eq (d : Dict) (k : Key) :
-    (labelDict d k).filter (fun p => decide (p.1 ≠ k)) = d.filter (fun p => !([k] : List Key).contains p.1) := by
-  have hc : ∀ p : Key × Val, decide (p.1 ≠ k) = !([k] : List Key).contains p.1 := by
-    intro p; by_cases h : p.1 = k <;> simp [h]
-  unfold labelDict
-  split
-  · exact List.filter_congr (fun p _ => hc p)
-  · rw [List.filter_append]
-    simp only [List.filter_cons, List.filter_nil]
-    simp
-
-/-- LabelRows as the last stage of a sparse pipeline -/
-theorem labelS_last {r0 : SRow} {e0 : EagerS} (h : RefS r0 e0) (hw : WFS e0) (k : Key) (t : Option String) (e : EagerS)
-    (he : eagerStageS (.label k t) e0 = .ok (some e)) :
-    ∃ r f ef v, applyS (.label k t) r0 = .ok (some r) ∧ RefS r e ∧
-      r.feats = .ok f ∧ e.feats = some ef ∧ RefS f ef ∧
-      r.labelVal = .ok v ∧ e.labelVal = some v ∧ r.tipe = .ok t ∧ e.lab.map (·.2) = some t := by
-  simp only [eagerStageS] at he
-  simp only [Except.ok.injEq, Option.some.injEq] at he
-  subst he
-  -- the key LabelRows really uses (an int label of a header-mapped table is translated to its header)
-  have hk : labelKey r0.invOf k = labelKey e0.inv k := by rw [h.inv]
-  generalize labelKey e0.inv k = k' at hk
-  have href := refS_label h hw k' t (some (k', t))
-  have hlv : ∃ v, dget (labelDict e0.d k') k' = some v := by
-    rw [dget_labelDict]
-    cases dget e0.d k' with
-    | some v => exact ⟨v, rfl⟩
-    | none => exact ⟨.int 0, by simp⟩
-  obtain ⟨v, hv⟩ := hlv
-  have hdrop := refS_drop h hw [k'] none
-  refine ⟨.label r0 k' t, .drop r0 [k'], _, v, by simp only [applyS, hk], ?_, rfl, rfl, ?_, ?_, ?_, rfl, rfl⟩
-  · exact href
-  · have := feats_filter_eq e0.d k'
-    simp only [labelDict] at this
-    rw [this]
-    exact hdrop
-  · simp only [SRow.labelVal, SRow.labelOf]
-    have := href.get k'
-    simp only [labelDict] at this hv
-    rw [this, hv]; rfl
-  · simp only [EagerS.labelVal]
-    simpa [labelDict] using hv
-
-theorem feats_label_sparse' (b : SBase) (hb : simpleBase b) (stages : List Stage) (hs : noEnccat stages)
-    (k : Key) (t : Option String) (e0 e : EagerS)
-    (he0 : eagerBaseS b = .ok e0) (he : eagerS (stages ++ [.label k t]) e0 = .ok (some e)) :
-    ∃ r f ef v, buildS (stages ++ [.label k t]) (baseS b) = .ok (some r) ∧
-      r.feats = .ok f ∧ e.feats = some ef ∧ RefS f ef ∧
-      r.labelVal = .ok v ∧ e.labelVal = some v ∧ r.tipe = .ok t ∧ e.lab.map (·.2) = some t := by
-  rw [eagerS_append] at he
-  cases h1 : eagerS stages e0 with
-  | error er => simp [h1] at he
-  | ok o =>
-    cases o with
-    | none => simp [h1] at he
-    | some e1 =>
-      simp only [h1, eagerS] at he
-      obtain ⟨r1, hr1, href, hwf⟩ := (sparse_refines b hb stages hs e0 he0).1 e1 h1
-      cases h2 : eagerStageS (.label k t) e1 with
-      | error er => simp [h2] at he
-      | ok o2 =>
-        cases o2 with
-        | none => simp [h2] at he
-        | some e2 =>
-          simp [h2] at he; subst he
-          obtain ⟨r, f, ef, v, happ, _, hf, hef, hreff, hl, hel, ht, helab⟩ := labelS_last href hwf k t e2 h2
-          refine ⟨r, f, ef, v, ?_, hf, hef, hreff, hl, hel, ht, helab⟩
-          rw [buildS_append, hr1]
-          simp [buildS, happ]
-
-def cexBaseS : SBase := .plain [(.pos 0, .int 1), (.pos 1, .int 2)]
-def cexStagesS : List Stage := [.label (.pos 1) (some "c"), .encodeMap [(.pos 0, .inc), (.pos 1, .inc)]]
-
-theorem feats_label_sparse_cex' :
-    ∃ r e, buildS cexStagesS (baseS cexBaseS) = .ok (some r) ∧
-      (match eagerBaseS cexBaseS with | .ok e0 => eagerS cexStagesS e0 | .error er => .error er) = .ok (some e) ∧
-      r.items = .ok e.d ∧
-      r.labelVal = .ok (.int 2) ∧ e.labelVal = some (.int 3) := by
-  refine ⟨_, _, rfl, rfl, rfl, rfl, rfl⟩
-
-/-! ### the load-once cell (sparse) -/
-
-theorem touchS_missing (r : SRow) : r.touch.missing = r.missing := by
-  induction r <;> simp_all [SRow.touch, SRow.missing]
-
-theorem touchS_keys (r : SRow) : r.touch.keys = r.keys := by
-  induction r <;> simp_all [SRow.touch, SRow.keys, cell_get_touch]
-
-theorem touchS_len (r : SRow) : r.touch.len = r.len := by
-  induction r with
-  | plain d => rfl
-  | lazy c e n f i m => simp [SRow.touch, SRow.len, cell_get_touch]
-  | head r f i ih => simpa [SRow.touch, SRow.len] using ih
-  | encode r e n ih =>
-    have := touchS_keys (.encode r e n)
-    simp only [SRow.touch] at this
-    simp only [SRow.touch, SRow.len, this]
-  | drop r ds ih =>
-    have := touchS_keys (.drop r ds)
-    simp only [SRow.touch] at this
-    simp only [SRow.touch, SRow.len, this]
-  | label r k t ih =>
-    have := touchS_keys (.label r k t)
-    simp only [SRow.touch] at this
-    simp only [SRow.touch, SRow.len, this]
-
-theorem touchS_get (r : SRow) (k : Key) : r.touch.get k = r.get k := by
-  induction r generalizing k <;> simp_all [SRow.touch, SRow.get, cell_get_touch]
-
-theorem touchS_items (r : SRow) : r.touch.items = r.items := by
-  induction r <;> simp_all [SRow.touch, SRow.items, cell_get_touch]
-
-theorem touchS_labelOf (r : SRow) : r.touch.labelOf = r.labelOf.map (fun p => (p.1.touch, p.2)) := by
-  induction r <;> simp_all [SRow.touch, SRow.labelOf]
-
-theorem touch_obsS (r : SRow) (a : Acc) : obsS r.touch a = obsS r a := by
-  induction a generalizing r with
-  | pos i => rfl
-  | name k => simp [obsS, touchS_get]
-  | iter => simp [obsS, touchS_keys]
-  | keys => simp [obsS, touchS_keys]
-  | items => simp [obsS, touchS_items]
-  | copy => simp [obsS, touchS_items]
-  | len => simp [obsS, touchS_len]
-  | headers => rfl
-  | eq o => cases o <;> simp [obsS, SRow.eqDict, touchS_items]
-  | label =>
-    simp only [obsS, SRow.labelVal, touchS_labelOf]
-    cases r.labelOf with
-    | none => rfl
-    | some p =>
-      have := touchS_get (.label p.1 p.2.1 p.2.2) p.2.1
-      simp only [SRow.touch] at this
-      simp [this]
-  | tipe =>
-    simp only [obsS, SRow.tipe, touchS_labelOf]
-    cases r.labelOf <;> rfl
-  | feats s ih =>
-    simp only [obsS, SRow.feats, touchS_labelOf]
-    cases r.labelOf with
-    | none => rfl
-    | some p => exact ih (.drop p.1 [p.2.1])
-
-theorem runS_eq_map (r : SRow) (as : List Acc) : runS r as = as.map (obsS r) := by
-  induction as generalizing r with
-  | nil => rfl
-  | cons a t ih =>
-    simp only [runS, stepS, List.map_cons, ih]
-    congr 1
-    apply List.map_congr_left
-    intro b _
-    exact touch_obsS r b
-
-end Coba.C13
-
-namespace Coba.C13
-
-/-- a header-mapped LazySparse row (as ArffReader builds them) also answers to its raw integer keys:
-the two-sided by-key statement needs `simpleBase` -/
-def cexLeakBase : SBase := .lazy [(.pos 0, .int 7)] false [] (some ["a"]) false
-
-theorem sparse_get_leak_cex' :
-    ∃ e, eagerBaseS cexLeakBase = .ok e ∧ dget e.d (.pos 0) = none ∧ dget e.d (.name "a") = some (.int 7) ∧
-      (baseS cexLeakBase).get (.pos 0) = .ok (.int 7) ∧ (baseS cexLeakBase).get (.name "a") = .ok (.int 7) :=
-  ⟨_, rfl, rfl, rfl, rfl, rfl⟩
-
-def exBaseS : SBase := .lazy [(.name "a", .str "1"), (.name "b", .str "2")] true [] none false
-def exStagesS : List Stage :=
-  [.encodeMap [(.name "a", .toInt), (.name "c", .toStr)], .drop [.name "b"] none, .label (.name "y") (some "c")]
-
 end Coba.C13
